@@ -1,4 +1,5 @@
 import BytomModel.Model.VM.Run
+import BytomModel.Model.VM.Heap
 import BytomModel.Model.Sha3
 import BytomModel.Model.Sha256
 import BytomModel.Model.Ripemd160
@@ -17,12 +18,18 @@ op line (space separated, `nil` = absent pointer / nil func, `-` = empty byte st
     <sigs: pk:msg:sig;… for which ed25519.Verify is true>
 
 impl/model line:   <ok|error class> <gasLeft> <#trace lines> <fnv64 of trace> <last non-empty stack dump, top first>
-                   or  `watchdog`  when more than `maxSteps` instructions were traced.
+                   or  `watchdog`  when more than `stepBudget limit` instructions were traced.
 -/
 namespace BytomModel.Drv.VMCommon
 open BytomModel.Drv BytomModel.VM
 
 def maxSteps : Nat := 200000
+
+/-- watchdog threshold of a case (same formula in harness/c08_vmcommon.go) -/
+def stepBudget (limit : Int) : Nat :=
+  if limit < 0 then 1000
+  else if limit > ((maxSteps : Int) - 1000) / 4 then maxSteps
+  else (4 * limit + 1000).toNat
 
 def namedOps : List (Nat × String) := [
   (0x00, "FALSE"), (0x4c, "PUSHDATA1"), (0x4d, "PUSHDATA2"), (0x4e, "PUSHDATA4"), (0x61, "NOP"),
@@ -157,13 +164,13 @@ inductive Outcome (μ ι : Type) where
 
 /-- every iteration either traces an instruction or pops a frame, so `2·maxSteps + 10`
     iterations suffice to reach the watchdog limit -/
-def runTrace {μ ι : Type} (M : MemOps μ ι) (ctx : Context ι) : Nat → Machine μ ι → TraceSt → Outcome μ ι
+def runTrace {μ ι : Type} (M : MemOps μ ι) (ctx : Context ι) (budget : Nat) : Nat → Machine μ ι → TraceSt → Outcome μ ι
   | 0, _, _ => .watchdog
   | fuel + 1, m, t =>
   let (t, isExp) := match traceLine M m with
     | some (l, e) => ({ t with lines := t.lines + 1, steps := t.steps + 1, hash := fnvStr t.hash l }, e)
     | none => (t, false)
-  if t.steps > maxSteps then .watchdog else
+  if t.steps > budget then .watchdog else
   match smallStep M ctx m with
   | .inr f => .final f t
   | .inl m' =>
@@ -174,7 +181,7 @@ def runTrace {μ ι : Type} (M : MemOps μ ι) (ctx : Context ι) : Nat → Mach
         { t with lines := t.lines + m'.cur.data.length, hash := fnvStr t.hash txt,
                  last := if m'.cur.data.isEmpty then t.last else last }
       else t
-    runTrace M ctx fuel m' t
+    runTrace M ctx budget fuel m' t
 
 /-- `Verify` with trace: the result line -/
 def verifyLine {μ ι : Type} (M : MemOps μ ι) (ctx : Context ι) (mem : μ) (limit : Int) : String :=
@@ -187,7 +194,7 @@ def verifyLine {μ ι : Type} (M : MemOps μ ι) (ctx : Context ι) (mem : μ) (
     | .panic => fmt (some .unexpected) 0 {}
     | .err e s => fmt (some e) s.f.runLimit {}
     | .ok _ s =>
-      match runTrace M ctx (2 * maxSteps + 10) ⟨s.mem, s.f, []⟩ {} with
+      match runTrace M ctx (stepBudget limit) (2 * stepBudget limit + 10) ⟨s.mem, s.f, []⟩ {} with
       | .watchdog => "watchdog"
       | .final .panic t => fmt (some .unexpected) 0 t
       | .final (.done mem' f e) t =>
@@ -195,5 +202,36 @@ def verifyLine {μ ι : Type} (M : MemOps μ ι) (ctx : Context ι) (mem : μ) (
           | some e => some e
           | none => if falseResult M mem' f then some .falseVMResult else none
         fmt e' f.runLimit t
+
+/-! ### the same case on the Go-slice heap: every context item in its own exact-capacity array -/
+
+def allocList (h : Heap) : List Bytes → Heap × List Slice
+  | [] => (h, [])
+  | b :: bs =>
+    let (h1, s) := heapFresh h b 0
+    let (h2, ss) := allocList h1 bs
+    (h2, s :: ss)
+
+def allocOpt (h : Heap) : Option Bytes → Heap × Option Slice
+  | none => (h, none)
+  | some b => let (h1, s) := heapFresh h b 0; (h1, some s)
+
+def heapCtx (c : Context Bytes) : Heap × Context Slice :=
+  let h0 := Heap.empty
+  let (h1, code) := heapFresh h0 c.code 0
+  let (h2, state) := allocList h1 c.stateData
+  let (h3, args) := allocList h2 c.arguments
+  let (h4, entry) := heapFresh h3 c.entryID 0
+  let (h5, asset) := allocOpt h4 c.assetID
+  let (h6, spent) := allocOpt h5 c.spentOutputID
+  (h6, { vmVersion := c.vmVersion, code := code, stateData := state, arguments := args, entryID := entry,
+         txVersion := c.txVersion, blockHeight := c.blockHeight, assetID := asset, amount := c.amount,
+         destPos := c.destPos, spentOutputID := spent, txSigHash := c.txSigHash,
+         checkOutput := c.checkOutput, verifySig := c.verifySig, sha256 := c.sha256, sha3 := c.sha3,
+         ripemd160 := c.ripemd160 })
+
+def heapVerifyLine (c : Case) : String :=
+  let (h, hc) := heapCtx c.ctx
+  verifyLine (heapMem goGrow) hc h c.limit
 
 end BytomModel.Drv.VMCommon
